@@ -29,7 +29,10 @@ CONFIG = {
                    'non-strings and operator/fresh-atom look-alikes, atoms '
                    'absent from the structure, quoted atoms and formulas '
                    'nested to depth 100 must return a set of states; each '
-                   'result is then mutated and the call repeated.'),
+                   'result is then mutated and the call repeated.'
+                   ' Also: single-operator chains to depth 100, the same queries'
+                   ' under fairness constraints (CTL/CTL* without release), atoms'
+                   ' containing backslashes, labels spelling fresh-atom names.'),
     'level_note': ('Trusted base: isinstance/membership checks in '
                    'vmon/props/c19.py. Exactness of the answers is out of '
                    'scope here. States never alias under == (no 0/False, '
